@@ -4,6 +4,7 @@ import (
 	"fmt"
 	"go/token"
 	"go/types"
+	"strings"
 
 	"golang.org/x/tools/go/ssa"
 )
@@ -164,6 +165,53 @@ func runC14(c *Check) {
 		c.Report(len(fs) == 1 && fs[0] == win, P+".O3", "WINDOW-CONFIGURED", ctor, ctor.Pos(), "window", "the constructor stores the given window")
 	}
 	ndel := 0
+	// the standard library's maps.DeleteFunc(tags, pred) visits every entry and deletes those pred accepts: with
+	// pred = "the stored expiry is before the tick" it is the sweep
+	var deleteFuncFns []*ssa.Function
+	for _, fn := range la.Funcs {
+		for _, cl := range CallsIn(fn) {
+			cal := CalleeFn(cl.Common())
+			if cal == nil || cal.Pkg == nil || cal.Pkg.Pkg.Path() != "maps" || !strings.HasPrefix(cal.Name(), "DeleteFunc") || len(cl.Common().Args) != 2 || !isTags(cl.Common().Args[0]) {
+				continue
+			}
+			ndel++
+			deleteFuncFns = append(deleteFuncFns, HomeFn(fn))
+			pred := FuncOfValue(firstOrigin(cl.Common().Args[1]))
+			okPred := false
+			if pred != nil && len(pred.Params) == 2 {
+				ticks := ParamsOfType(fn, "time.Time")
+				okPred = true
+				for _, r := range Returns(pred) {
+					call, isCall := firstOrigin(r.Results[0]).(*ssa.Call)
+					if !isCall || len(call.Call.Args) != 2 {
+						okPred = false
+						continue
+					}
+					isTick := func(v ssa.Value) bool {
+						return len(ticks) == 1 && AllOrigins(v, func(o ssa.Value) bool {
+							if fv, isFV := o.(*ssa.FreeVar); isFV {
+								b := FreeVarBinding(fv)
+								return b != nil && FromParam(ticks[0])(b)
+							}
+							return FromParam(ticks[0])(o)
+						})
+					}
+					isExp := FromParam(pred.Params[1])
+					a0, a1 := call.Call.Args[0], call.Call.Args[1]
+					switch CalleeName(call) {
+					case "(time.Time).Before":
+						okPred = okPred && isExp(a0) && isTick(a1)
+					case "(time.Time).After":
+						okPred = okPred && isTick(a0) && isExp(a1)
+					default:
+						okPred = false
+					}
+				}
+			}
+			c.Report(okPred, P+".O3", "EXPIRY-COMPARISON", fn, cl.Pos(), "maps.DeleteFunc", "an entry is deleted only when its stored expiry is before (not after) the clean-up tick")
+			c.Report(!InLoop(cl), P+".O3", "CLEANUP-SWEEPS-ALL", fn, cl.Pos(), "maps.DeleteFunc", "one clean-up pass visits every entry (maps.DeleteFunc over the whole tag map)")
+		}
+	}
 	for _, fn := range la.Funcs {
 		for _, cl := range BuiltinCalls(fn, "delete") {
 			if !isTags(cl.Common().Args[0]) {
@@ -229,6 +277,7 @@ func runC14(c *Check) {
 			}
 		}
 	}
+	sweepFns = append(sweepFns, deleteFuncFns...)
 	nloop := 0
 	for _, sf := range sweepFns {
 		for _, site := range Callers(la.Funcs, sf) {
@@ -297,6 +346,19 @@ func runC14(c *Check) {
 					if re[ret] && RetNil(ret, 1) {
 						okStart = false
 					}
+				}
+			}
+			// the sweep's period is a positive fraction of the window for every window the constructor accepts
+			for _, f := range append([]*ssa.Function{ctor}, sameReceiverCalleesOf(ctor)...) {
+				for _, tk := range CallsTo(f, "time.NewTicker") {
+					arg := firstOrigin(tk.Common().Args[0])
+					bo, isBO := arg.(*ssa.BinOp)
+					okP := false
+					if isBO && bo.Op == token.QUO {
+						k, isC := IntConst(bo.Y)
+						okP = isC && k >= 1 && k <= 1000 && AllOrigins(bo.X, func(o ssa.Value) bool { _, isP := o.(*ssa.Parameter); return isP || LoadedField(o) == win })
+					}
+					c.Report(okP, P+".O3", "CLEANUP-PERIOD", f, tk.Pos(), "time.NewTicker", "the clean-up period is the window divided by a small constant — never rounded or truncated to something that can be zero (NewTicker panics) or longer than the window")
 				}
 			}
 			c.Report(okStart, P+".O3", "CLEANUP-STARTED-WITH-THE-REPOSITORY", ctor, ctor.Pos(), "constructor", "every repository the constructor hands out has its clean-up loop running (started by the constructor, not lazily by a later call)")
@@ -419,6 +481,15 @@ func c14Dedup(c *Check, P string) {
 			c.Report(AllOrigins(Arg(rep[0], 1), ResultOfAny(kf, 0)), P+".O2", "REPOSITORY-KEY", dupM, rep[0].Pos(), "Repository.IsDuplicate", "the repository is asked about exactly that key")
 			kOK, _ := NilEdges(dupM, ResultOfAny(kf, 1))
 			c.Report(GuardedBy(dupM, rep[0], kOK), P+".O2", "KEY-ERROR", dupM, rep[0].Pos(), "Repository.IsDuplicate", "a hashing error is returned instead of consulting the repository")
+			// every answer comes from the repository — except the failure of the key factory: no key (an empty one
+			// included) is answered without asking
+			_, kFail := NilEdges(dupM, ResultOfAny(kf, 1))
+			for i, r := range Returns(dupM) {
+				if ReachAfter(rep[0], nil)[r] {
+					continue
+				}
+				c.Report(len(kFail) > 0 && GuardedBy(dupM, r, kFail), P+".O2", "VERDICT-ONLY-FROM-THE-REPOSITORY", dupM, r.Pos(), fmt.Sprintf("IsDuplicate return#%d", i), "IsDuplicate answers without the repository only when the key could not be computed (every key, also the empty one, is a key: equal keys must suppress each other)")
+			}
 			for r, vals := range ReturnValues(dupM, 0) {
 				if !ReachAfter(rep[0], nil)[r] {
 					continue
@@ -798,5 +869,21 @@ func stFieldStores(fn *ssa.Function) []*ssa.Store {
 			}
 		}
 	})
+	return out
+}
+
+// sameReceiverCalleesOf: the in-package functions fn calls in place (one level).
+func sameReceiverCalleesOf(fn *ssa.Function) []*ssa.Function {
+	var out []*ssa.Function
+	seen := map[*ssa.Function]bool{}
+	for _, cl := range rawCallsIn(fn) {
+		if _, isCall := cl.(*ssa.Call); !isCall {
+			continue
+		}
+		if cal := CalleeFn(cl.Common()); cal != nil && cal.Pkg == fn.Pkg && len(cal.Blocks) > 0 && !seen[cal] {
+			seen[cal] = true
+			out = append(out, cal)
+		}
+	}
 	return out
 }
